@@ -98,10 +98,12 @@ th!(c03_q_send_finished_terminates, 10, {
     let fin = Finished { condition: any_condition(), delivery_code: DeliveryCode::Complete, file_status: FileStatusCode::Unreported, filestore_response: vec![], fault_location: None };
     t.process_pdu(directive(A, Direction::ToSender, Operations::Finished(fin))).unwrap();
     assert!(send_enabled(&t) && verif::send_has_pdu_to_send(&t), "ACK(Finished) is due");
-    match send_send(&mut t, &ch) {
+    let out1 = send_send(&mut t, &ch);
+    match &out1 {
         Some((_, PDU { payload: PDUPayload::Directive(Operations::Ack(a)), .. })) => assert!(a.directive == PDUDirective::Finished),
         _ => assert!(false, "ACK(Finished) expected"),
     }
+    forget(out1);
     assert!(verif::send_state(&t) == TransactionState::Terminated, "the transaction ends");
     kani::cover!(true, "end");
     forget(t);
